@@ -5,7 +5,10 @@ PROPS_FILE = "Props_C09.v"
 RULE = ("engine c09: 2-4 writer threads, each owning 2 ingress ids, issue 1-8 Updates (Single / Bulk with announcements and "
         "withdrawals / Withdraw with and without family / WithdrawBulk / EndOfStream) over 4 shared prefixes x 4 address families; "
         "a random interleaving of whole Updates (plus reader queries in between) is replayed on one real RibUnitRunner, the rest is run "
-        "to completion and every prefix is queried; a case is non-trivial when some final answer lists ids of two or more writers and at "
+        "to completion and every prefix is queried; a second profile (600 quick / 8000 thorough cases) has sessions with IPv4/IPv6 MULTICAST routes "
+        "(on prefixes no unicast route uses, so that match_prefix shows them) withdrawn family by family (IPv4 unicast, IPv6 unicast, in either order) "
+        "and then session-wide (Withdraw(id, None) / WithdrawBulk / a multicast family), other sessions holding routes for the same prefixes; "
+        "a case is non-trivial when some final answer lists ids of two or more writers and at "
         "least one withdrawn entry; distinct = distinct case text. extra c09-soak: free-running writer threads + readers on one RibUnitRunner, "
         "per-update deadline, final answers judged by the extracted model against the writers' own logs")
 TRUSTED_BASE = [
@@ -78,10 +81,85 @@ def gen_case(rng):
     return ";".join(items + sched)
 
 
+# ---- profile "family by family, then the session": per-family withdrawals of a session that has MULTICAST routes,
+# followed by a session-wide one (Withdraw(id, None) / WithdrawBulk) - what a peer that loses its address families one
+# by one and then goes down produces. rotonda-store keeps a withdrawn marker per (store, address family): the unicast
+# markers of an id say nothing about its multicast routes. Rib::match_prefix shows the multicast store only for a
+# prefix the unicast store has nothing for (finding C11-1), so the multicast routes get prefixes of their own (5..8).
+MC_PFX = [5, 6, 7, 8]
+
+
+def gen_famdown(rng):
+    nt = rng.range(1, 3)
+    progs = []
+    for t in range(nt):
+        ids = ids_of(t)
+        prog = []
+        # every id of the writer announces unicast and multicast routes
+        anns = []
+        for i in ids:
+            for fam in (2, 3) if rng.chance(70) else (rng.choice((2, 3)),):
+                for p in rng_sample(rng, MC_PFX, rng.range(1, 2)):
+                    anns.append("%d:%d:%d:%d" % (i, fam, p, rng.below(6)))
+            for _ in range(rng.range(0, 2)):
+                anns.append("%d:%d:%d:%d" % (i, rng.below(2), 1 + rng.below(4), rng.below(6)))
+        rng_shuffle(rng, anns)
+        while anns:
+            k = rng.range(1, min(4, len(anns)))
+            prog.append(("S " if k == 1 else "B ") + ",".join(anns[:k]))
+            anns = anns[k:]
+        # the session that goes down family by family
+        s = rng.choice(ids)
+        fams = [0, 1] if rng.chance(75) else rng_sample(rng, [0, 1, 2, 3], rng.range(1, 3))
+        rng_shuffle(rng, fams)
+        for f in fams:
+            prog.append("W %d %d" % (s, f))
+            if rng.chance(20):
+                prog.append(update(rng, t))
+        last = rng.weighted([("W-", 40), ("X", 35), ("Wm", 15), ("none", 10)])
+        if last == "W-":
+            prog.append("W %d -" % s)
+        elif last == "X":
+            xs = [s] + [rng.choice(ids) for _ in range(rng.below(2))]
+            rng_shuffle(rng, xs)
+            prog.append("X " + ",".join(map(str, xs)))
+        elif last == "Wm":
+            prog.append("W %d %d" % (s, rng.choice((2, 3))))
+        if rng.chance(30):
+            prog.append("X %d" % s)        # the router disconnects after the peer went down
+        if rng.chance(25):
+            prog.append("S %d:%d:%d:%d" % (s, rng.choice((2, 3)), rng.choice(MC_PFX), rng.below(6)))
+        progs.append(prog)
+    items = ["p %d %s" % (t, u) for t, prog in enumerate(progs) for u in prog]
+    pending = [t for t, prog in enumerate(progs) for _ in prog]
+    sched = []
+    keep = rng.choice([0, len(pending), rng.range(0, len(pending))])
+    while pending and len(sched) < keep:
+        t = pending.pop(rng.below(len(pending)))
+        sched.append("s %d" % t)
+        if rng.chance(20):
+            sched.append("q %d %d" % (rng.below(2), rng.choice(MC_PFX)))
+    return ";".join(items + sched)
+
+
+def rng_sample(rng, xs, n):
+    xs = list(xs)
+    return [xs.pop(rng.below(len(xs))) for _ in range(min(n, len(xs)))]
+
+
+def rng_shuffle(rng, xs):
+    for i in range(len(xs) - 1, 0, -1):
+        j = rng.below(i + 1)
+        xs[i], xs[j] = xs[j], xs[i]
+
+
 def gen(rng, tier):
     n = 2500 if tier == "quick" else 40000
     for _ in range(n):
         yield gen_case(rng)
+    r2 = rng.fork("famdown")
+    for _ in range(600 if tier == "quick" else 8000):
+        yield gen_famdown(r2)
 
 
 def final_tokens(out):
@@ -114,6 +192,8 @@ def classify(case, out):
         ks.append("reads-in-between")
     if any(":2:" in i or ":3:" in i for i in its if i.startswith("p ")):
         ks.append("multicast")
+    if family_then_session(its):
+        ks.append("per-family-withdrawals-then-session-wide-on-a-multicast-session")
     fin = final_tokens(out)
     if any("=W" in t for t in fin):
         ks.append("final-has-withdrawn")
@@ -122,8 +202,36 @@ def classify(case, out):
     return ks
 
 
+def family_then_session(its):
+    """some id with multicast routes is withdrawn for IPv4 unicast and IPv6 unicast and later session-wide (program order)"""
+    seen = {}
+    mc = set()
+    for i in its:
+        t = i.split()
+        if len(t) < 4 or t[0] != "p":
+            continue
+        if t[2] in "SB":
+            for pl in t[3].split(","):
+                f = pl.split(":")
+                if f[1] in "23" and f[3] != "w":
+                    mc.add(f[0])
+        elif t[2] == "W" and t[4] in "01":
+            seen.setdefault(t[3], set()).add(t[4])
+        elif (t[2] == "W" and t[4] == "-" and seen.get(t[3]) == {"0", "1"} and t[3] in mc) or \
+             (t[2] == "X" and any(seen.get(x) == {"0", "1"} and x in mc for x in t[3].split(","))):
+            return True
+    return False
+
+
 def corpus():
     return [
+        # seeded change C09-3 (a "nothing left to withdraw" fast path that looks at the unicast store only): a session with
+        # multicast routes is withdrawn for IPv4 unicast, then IPv6 unicast, then session-wide - its multicast routes must
+        # end withdrawn, the other session's must stay active
+        "p 0 B 11:0:1:1,11:2:5:1,11:3:6:1;p 1 B 21:0:1:2,21:2:5:2,21:3:6:2;p 0 W 11 0;p 0 W 11 1;p 0 W 11 -;s 0;s 1;s 0;s 0;q 0 5;s 0;q 0 5;q 1 6",
+        # the same with the router's disconnect (WithdrawBulk) as the session-wide withdrawal, and a multicast-only one after both unicast ones
+        "p 0 B 11:2:5:1,12:2:5:3;p 0 W 11 1;p 0 W 11 0;p 0 X 12,11",
+        "p 0 S 11:3:7:4;p 0 W 11 0;p 0 W 11 1;p 0 W 11 3;p 1 S 21:3:7:2",
         # Props_C09.C09_example: three writers, adversarial interleaving
         "p 0 B 1:0:7:5,1:0:8:5;p 0 S 1:0:7:6;p 0 S 1:0:8:w;p 1 B 2:0:7:3,2:1:7:3;p 1 W 2 0;p 2 S 3:0:7:4;p 2 X 3,4;p 2 S 4:2:7:9;"
         "s 2;s 0;s 1;q 0 7;s 1;s 2;s 0;q 1 7;s 2;s 0",
